@@ -602,7 +602,7 @@ pub fn run(env: &Env, replay: Option<&Path>) -> i32 {
         let a = sc.spawn(|| {
             let mut report = Report::new();
             replay_corpus(env, &subs, &mut report);
-            drive(env, &ApiHistory, env.tier.pick(48, 1_000), &mut report);
+            drive(env, &ApiHistory, env.tier.pick(32, 1_000), &mut report);
             report
         });
         let b = sc.spawn(|| {
@@ -641,8 +641,8 @@ pub fn run(env: &Env, replay: Option<&Path>) -> i32 {
             // interleave so that the expensive 1024 cases are spread over the workers
             flips.sort_by_key(|f| mix(f.bit as u64 * 7 + f.n as u64));
             drive_enumerated(env, &BitFlip, flips.into_iter(), &mut report);
-            drive(env, &History, env.tier.pick(12, 128), &mut report);
-            drive(env, &RelatedSeeds, env.tier.pick(18, 400), &mut report);
+            drive(env, &History, env.tier.pick(10, 128), &mut report);
+            drive(env, &RelatedSeeds, env.tier.pick(12, 400), &mut report);
             report
         });
         let c = sc.spawn(|| {
@@ -655,7 +655,7 @@ pub fn run(env: &Env, replay: Option<&Path>) -> i32 {
             report.extra.insert("greedy_prescreen".into(), json!({"seeds_scanned_512": scan512, "seeds_scanned_1024": scan1024, "kept": greedy.len()}));
             drive_enumerated(env, &Repeat, greedy.into_iter(), &mut report);
             drive(env, &ProcessHistory, env.tier.pick(6, 200), &mut report);
-            drive(env, &Environment, env.tier.pick(6, 200), &mut report);
+            drive(env, &Environment, env.tier.pick(4, 200), &mut report);
             report
         });
         (a.join().expect("group a"), b.join().expect("group b"), c.join().expect("group c"))
